@@ -41,10 +41,9 @@ RefByte(st, c) ==
          ELSE IF c = BS THEN [st EXCEPT !.m = "b", !.started = TRUE]
          ELSE IF IsSep(c) THEN
               IF st.started
+              \* (a word made only of an empty pair of quotes is an empty argument)
               THEN [st EXCEPT !.out = Append(@, Tok(st.cur, c = NL)),
-                              !.cur = <<>>, !.started = FALSE,
-                              \* a word made only of an empty quote pair: open point
-                              !.dom = @ /\ st.cur # <<>>]
+                              !.cur = <<>>, !.started = FALSE]
               ELSE st
          ELSE [st EXCEPT !.cur = Append(@, c), !.started = TRUE,
                          !.dom = @ /\ ~OpenByte(c)]
@@ -60,8 +59,7 @@ RefTokenize(bytes) ==
   IF st.m \in {"s", "d"} THEN [err |-> TRUE, toks |-> <<>>, dom |-> st.dom]
   ELSE IF st.m = "b" THEN [err |-> FALSE, toks |-> <<>>, dom |-> FALSE]  \* dangling backslash
   ELSE IF st.started
-       THEN [err |-> FALSE, toks |-> Append(st.out, Tok(st.cur, FALSE)),
-             dom |-> st.dom /\ st.cur # <<>>]
+       THEN [err |-> FALSE, toks |-> Append(st.out, Tok(st.cur, FALSE)), dom |-> st.dom]
        ELSE [err |-> FALSE, toks |-> st.out, dom |-> st.dom]
 
 (***************************************************************************)
@@ -92,7 +90,8 @@ NoQuoting(bytes) == \A i \in DOMAIN bytes : bytes[i] \notin {SQ, DQ, BS}
 RefLaws(bytes) ==
   LET r == RefTokenize(bytes) IN
   /\ (OnlySeps(bytes) => r.toks = <<>> /\ ~r.err)
-  /\ (r.dom /\ ~r.err => \A k \in DOMAIN r.toks : r.toks[k].b # <<>>)
+  \* "no argument that is not in the input": an empty argument comes from quotes only
+  /\ (r.dom /\ ~r.err /\ NoQuoting(bytes) => \A k \in DOMAIN r.toks : r.toks[k].b # <<>>)
   /\ (NoQuoting(bytes) /\ ~r.err =>
          \* without quoting characters the literal bytes are exactly the non-separators
          Flatten([k \in DOMAIN r.toks |-> r.toks[k].b]) = FilterSeq(bytes, LAMBDA c : ~IsSep(c)))
